@@ -2,15 +2,15 @@ import VncModel.Ws.LemmasStep
 /-! Strictness: header violations and Close frames end the call with an error, never with payload. -/
 namespace VncModel.Ws
 
-/-- the first two header bytes decide: mask bit clear ⇒ protocol error -/
+/-- `parse2` never lets a header through whose remaining checks fail; helper tactic pattern:
+split every branch, error branches close by `rfl`, the `.ok` branch contradicts the hypothesis -/
 theorem parse2_unmasked (c : Ctx) (b0 b1 : Byte) (tl : List Byte) (hh : c.hdr = b0 :: b1 :: tl)
     (hm : b1 &&& 0x80 = 0) : ∃ c', parse2 c = .error .eproto c' := by
   unfold parse2
   rw [hh]
   simp only
-  split
-  · exact ⟨_, rfl⟩
-  · simp only [hm, if_true]; exact ⟨_, rfl⟩
+  repeat' split
+  all_goals first | exact ⟨_, rfl⟩ | (exfalso; simp_all)
 
 /-- control frame with FIN clear ⇒ protocol error -/
 theorem parse2_fragmented_control (c : Ctx) (b0 b1 : Byte) (tl : List Byte) (hh : c.hdr = b0 :: b1 :: tl)
@@ -19,7 +19,8 @@ theorem parse2_fragmented_control (c : Ctx) (b0 b1 : Byte) (tl : List Byte) (hh 
   unfold parse2
   rw [hh]
   simp only [Ctx.isControl, hctl, if_true, hfin]
-  exact ⟨_, rfl⟩
+  repeat' split
+  all_goals first | exact ⟨_, rfl⟩ | (exfalso; simp_all)
 
 /-- continuation frame while no message is open ⇒ protocol error -/
 theorem parse2_continuation_without_start (c : Ctx) (b0 b1 : Byte) (tl : List Byte)
@@ -29,7 +30,32 @@ theorem parse2_continuation_without_start (c : Ctx) (b0 b1 : Byte) (tl : List By
   unfold parse2
   rw [hh]
   simp only [Ctx.isControl, hnc, Bool.false_eq_true, if_false, hop, if_true, hco]
+  repeat' split
+  all_goals first | exact ⟨_, rfl⟩ | (exfalso; simp_all)
+
+/-- reserved opcode (0x3-0x7, 0xB-0xF) ⇒ protocol error -/
+theorem parse2_reserved_opcode (c : Ctx) (b0 b1 : Byte) (tl : List Byte) (hh : c.hdr = b0 :: b1 :: tl)
+    (hres : isReservedOp (b0 &&& 0x0f) = true) : ∃ c', parse2 c = .error .eproto c' := by
+  unfold parse2
+  rw [hh]
+  simp only [hres, if_true]
   exact ⟨_, rfl⟩
+
+/-- control frame announcing more than 125 payload bytes (i.e. using an extended length form)
+⇒ protocol error -/
+theorem parse2_oversized_control (c : Ctx) (b0 b1 : Byte) (tl : List Byte) (hh : c.hdr = b0 :: b1 :: tl)
+    (hctl : (b0 &&& 0x0f) &&& 0x08 != 0) (hlen : (b1 &&& 0x7f).toNat > 125) :
+    ∃ c', parse2 c = .error .eproto c' := by
+  unfold parse2
+  rw [hh]
+  by_cases hres : isReservedOp (b0 &&& 0x0f) = true
+  · simp only [hres, if_true]; exact ⟨_, rfl⟩
+  · by_cases hfin : (b0 &&& 0x80) >>> 7 = 0
+    · simp only [hres, Ctx.isControl, hctl, if_true, hfin, Bool.false_eq_true, if_false]
+      exact ⟨_, rfl⟩
+    · have hl : (b1 &&& 0x7f).toNat > 125 := hlen
+      simp only [hres, Ctx.isControl, hctl, if_true, hfin, Bool.false_eq_true, if_false, hl, and_self]
+      exact ⟨_, rfl⟩
 
 /-- a header violation found while parsing the first two bytes ends the call with that error:
 nothing is delivered, the decoder is reset -/
